@@ -128,6 +128,11 @@ func (c *pathParser) parsePath(svgPath string) ([]pathItem, error) {
 	lastIndex := -1
 	for i, v := range data {
 		if ('a' <= v && v <= 'z' || 'A' <= v && v <= 'Z') && v != 'e' && v != 'E' {
+			if lastIndex == -1 && v != 'M' && v != 'm' {
+				// path data must begin with a moveto: the first command
+				// is in error and nothing is rendered
+				return nil, nil
+			}
 			if lastIndex != -1 {
 				if err := c.addSeg(data[lastIndex:i]); err != nil {
 					return nil, err
